@@ -10,7 +10,7 @@ import (
 	"fmt"
 	"reflect"
 	"sort"
-	"strings"
+	"unicode"
 )
 
 // C02: nothing depends on map iteration order. The struct decoder resolves keys case-insensitively in map order, so an
@@ -43,7 +43,7 @@ func Spec_rejectAmbiguousKeys(src interface{}, target reflect.Type) {
 		sort.Strings(keys)
 		seen := make(map[string]string, len(keys))
 		for _, k := range keys {
-			folded := strings.ToLower(k)
+			folded := Spec_foldKey(k)
 			if other, taken := seen[folded]; taken {
 				panic(fmt.Errorf("keys '%s' and '%s' differ only in letter case", other, k))
 			}
@@ -52,7 +52,7 @@ func Spec_rejectAmbiguousKeys(src interface{}, target reflect.Type) {
 		// the value of every field the decoder would fill is checked against the field's type
 		for i := 0; i < target.NumField(); i++ {
 			field := target.Field(i)
-			if key, ok := seen[strings.ToLower(field.Name)]; ok {
+			if key, ok := seen[Spec_foldKey(field.Name)]; ok {
 				Spec_rejectAmbiguousKeys(value.MapIndex(reflect.ValueOf(key).Convert(value.Type().Key())).Interface(), field.Type)
 			}
 		}
@@ -71,4 +71,21 @@ func Spec_rejectAmbiguousKeys(src interface{}, target reflect.Type) {
 			Spec_rejectAmbiguousKeys(value.MapIndex(k).Interface(), target.Elem())
 		}
 	}
+}
+
+// Two keys compete for one struct field exactly when strings.EqualFold holds for them (that is the decoder's test), so
+// the canonical form is the smallest rune of each rune's simple case-folding class - not strings.ToLower, which leaves
+// the long s U+017F apart from 's'.
+func Spec_foldKey(key string) string {
+	folded := make([]rune, 0, len(key))
+	for _, r := range key {
+		smallest := r
+		for f := unicode.SimpleFold(r); f != r; f = unicode.SimpleFold(f) {
+			if f < smallest {
+				smallest = f
+			}
+		}
+		folded = append(folded, smallest)
+	}
+	return string(folded)
 }
